@@ -75,6 +75,25 @@ T = {
  "C14-F": ("C14", "board.rs: the three UIO setters folded into one helper where the direction check guards only the status-bit update: an external change on an output-configured pin still raises the interrupt flip-flop when that pin is the selected source", "UIO pin configured as output and selected as interrupt source, then an external change with the configured polarity"),
  "C14-G": ("C14", "board.rs set_jumper1 condensed to `changed && (falling || !FALLING)`: pulling jumper 1 raises the interrupt even when the rising edge is configured", "source Jumper1, rising polarity, jumper 1 plugged, then unplugged"),
  "C17-B": ("C17", "tui/input/parser.rs: nr_bin folds bits with shifts instead of from_str_radix: a 0b literal with more than 8 significant bits is truncated mod 256 instead of rejected", "`FC = 0b100000000`, `set IRG = 0b111111111`"),
+ # ---- wave 4 (blind: the agents saw the property text and the list of earlier changes only) ----
+ "C04-G": ("C04", "signals.rs: the key flip-flop reaches the interrupt logic only while MICR bit 0 is set: a press latched while enabled is neither taken nor cleared if the program masks the key before the instruction ends", "key pressed during the instruction that clears the enable bit (store to 0xF9), before the store takes effect"),
+ "C04-H": ("C04", "raw/mod.rs: the 'RETI detected' branch (raw compare of the loaded opcode byte with 0x2C) also releases the key flip-flop: a press during the first cycles of CMP ((R0+)),src (second byte 0x2C) or in the fetch window of a RETI is lost", "press inside the fetch of an opcode byte 0x2C with enable and IE set"),
+ "C05-G": ("C05", "raw/mod.rs: PC supervision moved from every register write to the opcode fetch: a RET/RETI to an address beyond the program, or *PROGRAMSIZE cutting an instruction at its address byte, keeps the machine Running for some edges", "return to an address above the limit, or a limit inside a multi-byte instruction"),
+ "C07-G": ("C07", "machine/mod.rs: Machine::cpu_reset in Assembly step mode also issues the reset cycle up to the first boundary: not the power-on state", "cpu_reset while the step mode is Assembly"),
+ "C07-H": ("C07", "machine/mod.rs: load = cpu_reset() + Bus::new(): wipes the board's physical inputs (input port, temperature, analog inputs, jumpers, UIO levels, DAISR) and the MISR", "non-default physical board inputs, then load"),
+ "C11-F": ("C11", "machine/mod.rs: an assembly step that uses up its 4096-edge budget sets the machine to ErrorStopped", "one of the 20 undefined opcodes in Assembly mode"),
+ "C10-H": ("C10", "bus.rs: write(0xF9) ORs the byte into the enable mask instead of replacing it", "two writes to 0xF9, the second lacking a bit of the first"),
+ "C10-I": ("C10", "bus.rs: read(0xF4)/read(0xF5) return the board output registers written at 0xF0/0xF1", "non-zero write to 0xF0 or 0xF1, then a read of 0xF4 / 0xF5"),
+ "C14-H": ("C14", "board.rs: comparators compare input*100 > byte instead of input > byte/100: rounding differs exactly at / one ulp above the DAC voltage for 17 + 27 particular bytes", "input voltage within an ulp of byte/100 for one of the affected bytes"),
+ "C14-I": ("C14", "board.rs set_icr: a write whose six configuration bits equal the current ICR is skipped as a whole: the interrupt flip-flop of an earlier edge survives", "ICR written, edge latched, the same ICR value written again"),
+ "C14-J": ("C14", "board.rs: set_jumper1/2 folded into one helper that does not check which jumper moved: jumper 2 raises the interrupt when jumper 1 is the selected source", "source = Jumper1 and a change of jumper 2 in the configured direction"),
+ "C13-E": ("C13", "board.rs: DAICR::interrupt_source masks the raw register with 0b1111 (includes FALLING) and expect()s from_u8: panic at the next board event once the ICR has bit 3 set", "ICR with the falling-edge bit, then any board event"),
+ "C12-G": ("C12", "runner/mod.rs (lib): the early-exit test moved before the clock edge: the events scheduled for the cycle right after the halting edge are still applied", "an interrupt or reset scheduled for exactly the cycle equal to the reported cycle count of a halting program"),
+ "C12-H": ("C12", "emulator-2a/src/runner/mod.rs (binary): --interrupt cycles that also appear in --reset are filtered out before the RunnerConfig is built", "the same cycle in both lists and a program whose outputs depend on the MISR (0xF9)"),
+ "C17-J": ("C17", "tui/mod.rs: `next N` clocks the raw machine and ignores the step mode", "CTRL+W (Assembly step mode), then `next N`"),
+ "C17-K": ("C17", "tui/input/parser.rs: nr_hex takes at most two hex digits: zero-padded hex values <= 255 (0x0FF) are rejected", "a byte value in hex with three or more digits"),
+ "C17-L": ("C17", "tui/input/mod.rs: the input field advances by display width while truncation still counts characters: subtraction overflow in the draw call", "20 or more double-width characters (at 76 columns) in the input field"),
+ "C17-M": ("C17", "tui/supervisor_wrapper.rs: new inherent MachineState::trigger_key_interrupt forwards only while Running: CTRL+E on a halted machine is swallowed", "CTRL+E while the machine is Stopped / ErrorStopped"),
 }
 for sid, (prop, what, needs) in sorted(T.items()):
     d = os.path.join(HERE, "seeded", sid)
